@@ -282,26 +282,95 @@ static std::string DiffText(const char * ta, const std::string & a, const char *
 
 // ------------------------------------------------------------------------------------------------ C++ Message leg
 static void CK(status_t r, const char * what) { if (r.IsError()) HarnessAbort(std::string("C++ build step failed: ") + what + ": " + r()); }
+// The C++ Message reaches the script's final content through a randomly chosen CONSTRUCTION ROUTE per field, so that the
+// field's ring buffer wraps, spare capacity appears and the field passes through inline<->array transitions; the expected
+// bytes still come from the script alone (reference codec, the C codecs, Python).  forceRoute >= 0 pins the route.
+enum { ROUTE_APPEND = 0, ROUTE_PREPEND, ROUTE_SLIDING_WINDOW, ROUTE_REPLACE_AT, ROUTE_LONGER_THEN_REMOVE, ROUTE_BOTH_ENDS, NUM_ROUTES };
+static const char * ROUTE_NAME[NUM_ROUTES] = {"route_append", "route_prepend", "route_sliding_window", "route_replace_at", "route_longer_then_remove", "route_both_ends"};
+static int forceRoute = -1; static bool countRoutes = false; static std::string routeLog;
+static MessageRef BuildCpp(const Scr & s);
+enum { PUT_ADD = 0, PUT_PREPEND, PUT_REPLACE };
+#define PUT3(T, val) (mode == PUT_ADD ? m.Add##T(n, val) : mode == PUT_PREPEND ? m.Prepend##T(n, val) : m.Replace##T(false, n, idx, val))
+// item k of field f goes into the Message by Add / Prepend / Replace-at-idx
+static void PutItem(Message & m, const Fld & f, size_t k, int mode, uint32 idx)
+{
+   const String n(f.name.c_str()); status_t r;
+   switch (f.type) {
+      case B_BOOL_TYPE:   r = PUT3(Bool, f.iv[k] != 0); break;
+      case B_INT8_TYPE:   r = PUT3(Int8, (int8)f.iv[k]); break;
+      case B_INT16_TYPE:  r = PUT3(Int16, (int16)f.iv[k]); break;
+      case B_INT32_TYPE:  r = PUT3(Int32, (int32)f.iv[k]); break;
+      case B_INT64_TYPE:  r = PUT3(Int64, (int64)f.iv[k]); break;
+      case B_FLOAT_TYPE:  r = PUT3(Float, BF(f.bits[k])); break;
+      case B_DOUBLE_TYPE: r = PUT3(Double, BD(f.bits[k])); break;
+      case B_POINT_TYPE:  { const Point v(BF(f.bits[2 * k]), BF(f.bits[2 * k + 1])); r = PUT3(Point, v); } break;
+      case B_RECT_TYPE:   { const Rect v(BF(f.bits[4 * k]), BF(f.bits[4 * k + 1]), BF(f.bits[4 * k + 2]), BF(f.bits[4 * k + 3])); r = PUT3(Rect, v); } break;
+      case B_STRING_TYPE: { const String v(f.sv[k].c_str()); r = PUT3(String, v); } break;
+      case B_RAW_TYPE:
+         if (f.sv[k].size()) r = mode == PUT_ADD ? m.AddData(n, f.rawCode, f.sv[k].data(), (uint32)f.sv[k].size()) : mode == PUT_PREPEND ? m.PrependData(n, f.rawCode, f.sv[k].data(), (uint32)f.sv[k].size()) : m.ReplaceData(false, n, f.rawCode, idx, f.sv[k].data(), (uint32)f.sv[k].size());
+         else { ByteBufferRef z = GetByteBufferFromPool(0); r = PUT3(Flat, z); }     // AddData refuses 0 bytes
+         break;
+      case B_MESSAGE_TYPE: { MessageRef v = BuildCpp(f.mv[k]); r = PUT3(Message, v); } break;
+   }
+   if (r.IsError()) HarnessAbort(vh::fmt("C++ build step failed: %s of a %s item (field '%s', index %u): %s", mode == PUT_ADD ? "Add" : mode == PUT_PREPEND ? "Prepend" : "Replace", TNAME[TIdx(f.type)], f.name.c_str(), idx, r()));
+}
+// a one-item field of the same name and type holding a value that must NOT survive into the final Message
+static Fld JunkLike(const Fld & f)
+{
+   Fld j; j.name = f.name; j.type = f.type; j.rawCode = f.rawCode;
+   switch (f.type) {
+      case B_BOOL_TYPE: j.iv.push_back(R(2)); break;
+      case B_INT8_TYPE: case B_INT16_TYPE: case B_INT32_TYPE: case B_INT64_TYPE: j.iv.push_back(0x5A5A5A5A5A5A5A5ALL ^ (int64_t)R(256)); break;
+      case B_FLOAT_TYPE: j.bits.push_back(0x4B4B4B4Bu); break; case B_DOUBLE_TYPE: j.bits.push_back(0x4B4B4B4B4B4B4B4BULL); break;
+      case B_POINT_TYPE: j.bits.assign(2, 0x4B4B4B4Bu); break; case B_RECT_TYPE: j.bits.assign(4, 0x4B4B4B4Bu); break;
+      case B_STRING_TYPE: j.sv.push_back(R(2) ? "junk" : "a-junk-string-that-is-longer-than-any-short-string-buffer"); break;
+      case B_RAW_TYPE: j.sv.push_back(std::string("JUNK", 1 + R(4))); break;
+      case B_MESSAGE_TYPE: { Scr sub; sub.what = 0xDEADDEADu; Fld x; x.name = "junk"; x.type = B_INT8_TYPE; x.iv.push_back(1); sub.f.push_back(x); j.mv.push_back(sub); } break;
+   }
+   return j;
+}
+static void CKR(status_t r, const char * what) { if (r.IsError()) HarnessAbort(std::string("C++ build step failed: ") + what + ": " + r()); }
+static void BuildField(Message & m, const Fld & f)
+{
+   const uint32 n = f.Count(); const String name(f.name.c_str());
+   int route = forceRoute >= 0 ? forceRoute : (R(3) == 0 ? ROUTE_APPEND : (int)R(NUM_ROUTES));
+   if (n > 400 && route != ROUTE_PREPEND && route != ROUTE_SLIDING_WINDOW && route != ROUTE_BOTH_ENDS) route = ROUTE_APPEND;   // keep the O(n^2) routes to small fields
+   if (countRoutes) vh::stat(ROUTE_NAME[route]);
+   if (routeLog.size() < 300) { routeLog += f.name.substr(0, 12); routeLog += ':'; routeLog += ROUTE_NAME[route] + 6; routeLog += ' '; }
+   const Fld junk = JunkLike(f);
+   switch (route) {
+      case ROUTE_APPEND: for (uint32 k = 0; k < n; k++) PutItem(m, f, k, PUT_ADD, 0); break;
+      case ROUTE_PREPEND: for (uint32 k = n; k > 0; k--) PutItem(m, f, k - 1, PUT_PREPEND, 0); break;
+      case ROUTE_SLIDING_WINDOW: {   // junk first; every real item is appended while the oldest junk item leaves at the front: the ring's head travels
+         uint32 nj = 1 + R(n + 6), left = nj; for (uint32 j = 0; j < nj; j++) PutItem(m, junk, 0, PUT_ADD, 0);
+         const uint32 spins = R(3) == 0 ? R(40) : 0;   // let the window slide on for a while before the real items arrive
+         for (uint32 j = 0; j < spins; j++) { PutItem(m, junk, 0, PUT_ADD, 0); CKR(m.RemoveData(name, 0), "RemoveData(first)"); }
+         for (uint32 k = 0; k < n; k++) { PutItem(m, f, k, PUT_ADD, 0); if (left && R(4)) { CKR(m.RemoveData(name, 0), "RemoveData(first)"); left--; } }
+         while (left) { CKR(m.RemoveData(name, 0), "RemoveData(first)"); left--; }
+      } break;
+      case ROUTE_REPLACE_AT: {
+         for (uint32 k = 0; k < n; k++) PutItem(m, junk, 0, R(2) ? PUT_ADD : PUT_PREPEND, 0);
+         std::vector<uint32> order(n); for (uint32 k = 0; k < n; k++) order[k] = k; for (uint32 k = n; k > 1; k--) std::swap(order[k - 1], order[R(k)]);
+         for (uint32 k = 0; k < n; k++) PutItem(m, f, order[k], PUT_REPLACE, order[k]);
+      } break;
+      case ROUTE_LONGER_THEN_REMOVE: {   // real items with junk in front, in between and behind; then the junk is taken out again
+         std::vector<int> plan; for (uint32 k = 0; k < n; k++) { while (R(3) == 0) plan.push_back(-1); plan.push_back((int)k); } while (R(2)) plan.push_back(-1); if (R(2)) plan.insert(plan.begin(), -1);
+         // the first item added must stay first in field-creation terms only; any order of adds is fine for the field's position because the field is created once
+         for (size_t q = 0; q < plan.size(); q++) { if (plan[q] < 0) PutItem(m, junk, 0, PUT_ADD, 0); else PutItem(m, f, (size_t)plan[q], PUT_ADD, 0); }
+         if (R(2)) { for (size_t q = plan.size(); q > 0; q--) if (plan[q - 1] < 0) CKR(m.RemoveData(name, (uint32)(q - 1)), "RemoveData(junk)"); }
+         else { uint32 removed = 0; for (size_t q = 0; q < plan.size(); q++) if (plan[q] < 0) { CKR(m.RemoveData(name, (uint32)q - removed), "RemoveData(junk)"); removed++; } }
+      } break;
+      default: {   // ROUTE_BOTH_ENDS: start in the middle, grow towards both ends in random interleaving
+         const uint32 mid = R(n); PutItem(m, f, mid, PUT_ADD, 0); uint32 lo = mid, hi = mid + 1;
+         while (lo > 0 || hi < n) { if (lo > 0 && (hi >= n || R(2))) { lo--; PutItem(m, f, lo, PUT_PREPEND, 0); } else { PutItem(m, f, hi, PUT_ADD, 0); hi++; } }
+      } break;
+   }
+}
 static MessageRef BuildCpp(const Scr & s)
 {
    MessageRef m = GetMessageFromPool(s.what); if (m() == NULL) HarnessAbort("GetMessageFromPool");
-   for (size_t i = 0; i < s.f.size(); i++) {
-      const Fld & f = s.f[i]; const String n(f.name.c_str());
-      switch (f.type) {
-         case B_BOOL_TYPE:   for (size_t k = 0; k < f.iv.size(); k++) CK(m()->AddBool(n, f.iv[k] != 0), "AddBool"); break;
-         case B_INT8_TYPE:   for (size_t k = 0; k < f.iv.size(); k++) CK(m()->AddInt8(n, (int8)f.iv[k]), "AddInt8"); break;
-         case B_INT16_TYPE:  for (size_t k = 0; k < f.iv.size(); k++) CK(m()->AddInt16(n, (int16)f.iv[k]), "AddInt16"); break;
-         case B_INT32_TYPE:  for (size_t k = 0; k < f.iv.size(); k++) CK(m()->AddInt32(n, (int32)f.iv[k]), "AddInt32"); break;
-         case B_INT64_TYPE:  for (size_t k = 0; k < f.iv.size(); k++) CK(m()->AddInt64(n, (int64)f.iv[k]), "AddInt64"); break;
-         case B_FLOAT_TYPE:  for (size_t k = 0; k < f.bits.size(); k++) CK(m()->AddFloat(n, BF(f.bits[k])), "AddFloat"); break;
-         case B_DOUBLE_TYPE: for (size_t k = 0; k < f.bits.size(); k++) CK(m()->AddDouble(n, BD(f.bits[k])), "AddDouble"); break;
-         case B_POINT_TYPE:  for (size_t k = 0; k + 1 < f.bits.size(); k += 2) CK(m()->AddPoint(n, Point(BF(f.bits[k]), BF(f.bits[k + 1]))), "AddPoint"); break;
-         case B_RECT_TYPE:   for (size_t k = 0; k + 3 < f.bits.size(); k += 4) CK(m()->AddRect(n, Rect(BF(f.bits[k]), BF(f.bits[k + 1]), BF(f.bits[k + 2]), BF(f.bits[k + 3]))), "AddRect"); break;
-         case B_STRING_TYPE: for (size_t k = 0; k < f.sv.size(); k++) CK(m()->AddString(n, String(f.sv[k].c_str())), "AddString"); break;
-         case B_RAW_TYPE:    for (size_t k = 0; k < f.sv.size(); k++) { if (f.sv[k].size()) CK(m()->AddData(n, f.rawCode, f.sv[k].data(), (uint32)f.sv[k].size()), "AddData"); else CK(m()->AddFlat(n, GetByteBufferFromPool(0)), "AddFlat(0 bytes)"); } break;
-         case B_MESSAGE_TYPE: for (size_t k = 0; k < f.mv.size(); k++) CK(m()->AddMessage(n, BuildCpp(f.mv[k])), "AddMessage"); break;
-      }
-   }
+   for (size_t i = 0; i < s.f.size(); i++) BuildField(*m(), s.f[i]);
+   if (forceRoute < 0 && R(8) == 0) { MessageRef c = GetMessageFromPool(*m()); if (c() == NULL) HarnessAbort("GetMessageFromPool(copy)"); if (countRoutes) vh::stat("route_message_copied"); return c; }   // what is flattened is a copy
    return m;
 }
 static std::string FlatCpp(const Message & m)
@@ -570,9 +639,11 @@ static void RunWire(long k, const Scr & s, bool countStats)
    caseBad = false; deferredKey.clear(); umZeroLast = false;
    Info in; Walk(s, in, 0);
    curJson.clear(); Json(s, curJson);
+   routeLog.clear(); countRoutes = countStats;
    MessageRef cm = BuildCpp(s);
+   countRoutes = false;
    const std::string bc = FlatCpp(*cm());
-   curCppHex = vh::hex(bc.data(), bc.size(), 400);
+   curCppHex = vh::hex(bc.data(), bc.size(), 400) + " | construction routes: " + routeLog;
    if (bc.size() >= 9 && bc.compare(bc.size() - 9, 9, "<OVERRUN>") == 0) { Fail("cpp|flatten-writes-beyond-flattenedsize", "Message::Flatten wrote past FlattenedSize()"); return; }
 
    // ---- hand the script and the C++ bytes to the Python side first (it works while the C legs run here)
@@ -593,7 +664,7 @@ static void RunWire(long k, const Scr & s, bool countStats)
       if (r.IsError()) Fail("cpp|rejects-own-bytes", std::string("Message::Unflatten: ") + r());
       else if (!CheckCpp(back, s, why)) Fail("cpp|parse-of-own-bytes-content", why);
       else { std::string b2 = FlatCpp(back); if (b2 != bc) Fail("cpp|reflatten-of-own-bytes", DiffText("c++", bc, "c++ again", b2)); else if (in.nanItems == 0 && !in.nanPtRc && !(back == *cm())) Fail("cpp|parsed-message-not-equal", "operator== says the parsed Message differs from the built one"); }
-      if (!CheckCpp(*cm(), s, why)) HarnessAbort("the natively built C++ Message does not hold the script: " + why);
+      if (!CheckCpp(*cm(), s, why)) Fail("cpp|route-built-message-content", "the C++ Message built through the routes [" + routeLog + "] does not hold the script's content (getters): " + why);
    }
 
    // ---- MiniMessage
